@@ -416,7 +416,7 @@ fn history(c: &mut Case) {
 pub fn run(ctx: &Ctx, evidence: Option<&PathBuf>) -> i32 {
     ctx.run_fixed("selection-table", 9, table);
     ctx.run_fixed("role-tables", 1, role_tables);
-    ctx.run_fixed("histories-directed", 400, history);
+    ctx.run_fixed("histories-directed", ctx.dn(400), history);
     let n = ctx.size(60_000, 6_000_000);
     ctx.run_cases("histories", n, history);
     ctx.gate("table_cells", 6 * 12);
